@@ -146,9 +146,8 @@ func replayHuge(tr *Trace) error {
 }
 
 func runHuge(t *testing.T, id string) {
-	spec := specByID(id)
 	stats.Property = id
-	stats.Rule = spec.Rule
+	stats.Rule = "keys of 2^24+d bytes: four byte-string keys sharing a stem of that length plus two below a deep inner node with a path; lookups, full scans, ranges across / inside / around the group, prefixes, the merges caused by deletions and re-insertion are compared with the answers that follow from the keys; non-trivial = every case; distinct by stem length"
 	rapid.Check(t, func(rt *rapid.T) {
 		l := (1 << 24) + pick(rt, []int{-3, -1, 0, 1, 2, 5, 9, 10, 11, 255, 256, 65536}, "hugedelta")
 		tr := &Trace{Property: id, Kinds: []string{"alpha:string"}, Params: map[string]string{"mode": "huge", "huge_len": strconv.Itoa(l), "huge_fill": strconv.Itoa(drawInt(rt, 0, 19, "hugefill"))}}
